@@ -292,3 +292,15 @@ impl Default for Recovery {
         Self::new()
     }
 }
+
+// Verification hook: name of the current recovery phase. See src/verif.rs.
+#[cfg(ikatson_librqbit_utp_verif)]
+impl Recovery {
+    pub(crate) fn verif_phase_name(&self) -> &'static str {
+        match self.phase {
+            RecoveryPhase::IgnoringUntilRecoveryPoint { .. } => "ignoring-until-recovery-point",
+            RecoveryPhase::CountingDuplicates { .. } => "counting-duplicates",
+            RecoveryPhase::Recovering(_) => "recovering",
+        }
+    }
+}
